@@ -705,7 +705,9 @@ class Bf3File:
             if is_file_path:
                 bf2fileobj.close()
         for instr, params in bf2_objs:
-            if instr == "load":
+            if instr == "load" and isinstance(params, list):
+                # (a textual instruction or comment that happens to be called
+                # "load" is not the parser's data marker)
                 fwtagtype = params[0].fwtagtype
                 if not is_known_tagtype(fwtagtype):
                     raise Bf3FileFormatError(
